@@ -386,7 +386,7 @@ def copy_module_tree(src_root, dst_root):
     shutil.copyfile(src_root, dst_root)
 
 
-def assemble(repo, dest, include_examples=True, witness_dirs=(), sylvia_features=None, splice=True, include_ui=True, permute=None):
+def assemble(repo, dest, include_examples=True, witness_dirs=(), sylvia_features=None, splice=True, include_ui=True, permute=None, include_doctests=True):
     """Build the scratch workspace under dest. Returns list[SourceCrate]."""
     PERMUTE[0] = permute
     if os.path.exists(dest):
@@ -529,6 +529,10 @@ doctest = false
         man = man.replace("@REPO@", repo).replace("@VERIF@", util.VERIF).replace("@SYLVIA_FEATURES@", feat_s)
         for n in COMMON_DEV + ["semver"]:
             man = man.replace(f"@DEP:{n}@", dep_line(n, vers))
+        bdir0 = os.path.join(wd, "src", "bin")
+        if os.path.isdir(bdir0):
+            man = man.replace('edition = "2021"', 'edition = "2021"\nautobins = false', 1)
+            man += "\n" + "".join(f'[[bin]]\nname = "{f[:-3]}"\npath = "src/bin/{f}"\ntest = false\n\n' for f in sorted(os.listdir(bdir0)) if f.endswith(".rs"))
         write(os.path.join(ddir, "Cargo.toml"), man)
         roots = []
         if os.path.exists(os.path.join(wd, "src", "lib.rs")):
@@ -559,6 +563,36 @@ doctest = false
                 shutil.copytree(os.path.join(wd, extra), os.path.join(ddir, extra), dirs_exist_ok=True)
         members.append(wname)
 
+    # ---- the repository's documentation examples (```rust blocks of doc comments) as must-compile corpus programs
+    if include_doctests:
+        from . import doctests
+        ddir = os.path.join(dest, "repo-doctests")
+        deps = "\n".join([sylvia_dep, vprobe_dep, serde_dep] + [dep_line(n, vers) for n in COMMON_DEV])
+        progs = doctests.doc_programs(repo)
+        write(os.path.join(ddir, "Cargo.toml"), f"""[package]
+name = "repo-doctests"
+version = "0.0.0"
+edition = "2021"
+autobins = false
+
+[dependencies]
+{deps}
+
+""" + "".join(f'[[bin]]\nname = "{name}"\npath = "src/bin/{name}.rs"\ntest = false\n\n' for name, rel, start, code in progs))
+        stage = os.path.join(dest, ".doc-stage")
+        os.makedirs(stage, exist_ok=True)
+        for name, rel, start, code in progs:
+            src = os.path.join(stage, name + ".rs")
+            with open(src, "w") as f:
+                f.write("#![allow(dead_code, unused_imports, unused_variables, deprecated)]\n" + code)
+            c = SourceCrate(name, os.path.join(ddir, "src", "bin", name + ".rs"), f"{rel}:{start} (doc example)", cfg_test=False, features=feats)
+            c.suffix = ".bin"
+            c.indexed = True
+            process_tree(src, c.root, counter, c, splice)
+            crates.append(c)
+        shutil.rmtree(stage, ignore_errors=True)
+        members.append("repo-doctests")
+
     # ---- the repository's own trybuild UI tests as must-fail witnesses (expectations from the committed .stderr files)
     if include_ui:
         ui = os.path.join(repo, "sylvia", "tests", "ui")
@@ -573,7 +607,7 @@ autobins = false
 [dependencies]
 {deps}
 
-""" + "".join(f'[[bin]]\nname = "{ui_bin_name(f, ui)}"\npath = "src/bin/{ui_bin_name(f, ui)}.rs"\n\n' for f in util.walk_files(ui, exts={".rs"})))
+""" + "".join(f'[[bin]]\nname = "{ui_bin_name(f, ui)}"\npath = "src/bin/{ui_bin_name(f, ui)}.rs"\ntest = false\n\n' for f in util.walk_files(ui, exts={".rs"})))
         for f in util.walk_files(ui, exts={".rs"}):
             bn = ui_bin_name(f, ui)
             dst = os.path.join(ddir, "src", "bin", bn + ".rs")
